@@ -306,6 +306,10 @@ def reference(line):
         if op == "xput":
             b = tok_bytes(t[2])
             return "%d %s raw=1" % (len(b), show_bytes(b))
+        if op == "xseq":
+            b1, b2 = tok_bytes(t[2]), tok_bytes(t[4])
+            b = b1 + b2 if t[3] in ("tapp", "fa") else b2
+            return "%d %s raw=1" % (len(b), show_bytes(b))
         if op == "xcopy":
             return "1 " + show_bytes(tok_bytes(t[1]))
         if op == "xmove":
@@ -485,6 +489,11 @@ def gen(rng, tier):
                 left -= min(k, left)
             h += ["r 3", "end", "pos", "seek %d" % rng.randrange(0, n + 1), "pos", "r 7", "close"]
             cases.append(h)
+    # two writers in a row on one path: truncating writers replace, appenders extend
+    for i in range(120 if quick else 2000):
+        n1 = rng.choice([0, 1, 3, 100, 255, 4096, 5000])
+        n2 = rng.choice([0, 1, 2, 50, 254, 4097, 70000]) if rng.random() < 0.9 else rng.randrange(0, 200000)
+        cases.append(["xseq %s %s %s %s" % (rng.choice(XPUT_APIS), btok(rng, n1), rng.choice(XPUT_APIS), btok(rng, n2))])
     # ---- (B) line structure
     # B1: exhaustive small texts over {a, CR, LF}
     import itertools
@@ -665,7 +674,7 @@ def distribution(cases):
         for l in c:
             t = l.split()
             ops[t[0]] = ops.get(t[0], 0) + 1
-            if t[0] in ("xput", "xcopy", "xmove", "put", "tput", "tapp", "rawput", "w", "sb", "ss"):
+            if t[0] in ("xput", "xseq", "xcopy", "xmove", "put", "tput", "tapp", "rawput", "w", "sb", "ss"):
                 b = _bucket(tok_len(t[-1]))
                 sz[b] = sz.get(b, 0) + 1
             if t[0] in ("xlines", "xrl") and tok_len(t[1]) <= 100000 and t[1][0] not in "gt":
